@@ -296,3 +296,23 @@ func (L *Loaded) ifaceByKey(pkgPath, name string) (*types.Named, *types.Interfac
 	}
 	return n, it
 }
+
+// instTypeArgs lists the distinct single type arguments generic functions of the program are instantiated with.
+func (L *Loaded) instTypeArgs() []types.Type {
+	seen := map[string]types.Type{}
+	for f := range L.allFuncs {
+		if ta := f.TypeArgs(); len(ta) == 1 {
+			seen[types.TypeString(ta[0], nil)] = ta[0]
+		}
+	}
+	var keys []string
+	for k := range seen {
+		keys = append(keys, k)
+	}
+	sort.Strings(keys)
+	var out []types.Type
+	for _, k := range keys {
+		out = append(out, seen[k])
+	}
+	return out
+}
